@@ -302,22 +302,103 @@ def make(rng, flavor, hid, cls=None, nops=None, start=None):
             hdr += " cp=" + ",".join(map(str, ids))
     return hdr + " :: " + " ; ".join(g.ops)
 
+def iter_scenario(rng, flavor, hid):
+    """structured scenario: one vector in a chosen storage state, one iterator with a chosen window,
+    a chosen interleaving of front/back steps, a chosen replacement length / predicate, ended by
+    drop or forget, followed by a probe sequence.  Covers the product the random walk reaches slowly."""
+    cls = rng.choice(flavor.get("classes", CLASSES))
+    n = rng.choice([0, 1, 2, 3, 4, 5, 6, 7])
+    extra = rng.choice([0, 0, 1, 3])
+    ops = []
+    st = rng.choice(["wcap", "wcap", "new", "walign", "shrunk"])
+    if st == "wcap":
+        ops.append("wcap 0 %d" % (n + extra))
+    elif st == "new":
+        ops.append("new 0")
+    elif st == "walign":
+        ops.append("walign 0 %d %d" % (n + extra, rng.choice([16, 32, 64, 256])))
+    else:
+        ops += ["wcap 0 2", "shrinkfit 0"]
+    dup = rng.random() < 0.2
+    for k in range(n):
+        ops.append("push 0" + ((" =%d" % rng.choice([1, 2, 3])) if dup else ""))
+    kind = rng.choice(flavor.get("iter_kinds", ["drain", "splice", "splice", "dfilter", "intoiter"]))
+    s = rng.randint(0, n)
+    e = rng.randint(s, n)
+    w = e - s
+    fresh = n
+    if kind in ("drain", "splice"):
+        bs = rng.choice(["i%d" % s] + (["u"] if s == 0 else []) + (["e%d" % (s - 1)] if s > 0 else []))
+        be = rng.choice(["e%d" % e] + (["u"] if e == n else []) + (["i%d" % (e - 1)] if e > 0 else []))
+        if kind == "drain":
+            ops.append("drain 0 0 %s %s" % (bs, be))
+        else:
+            r = rng.choice([0, 1, max(w - 1, 0), w, w + 1, w + 3, rng.randint(0, w + 2)])
+            if flavor.get("illbehaved") and rng.random() < 0.6:
+                sc = "".join(rng.choice("SSN") for _ in range(r + rng.randint(1, 3)))
+            else:
+                sc = "S" * r
+            if flavor.get("panic") and sc and rng.random() < 0.3:
+                k = rng.randrange(len(sc)); sc = sc[:k] + "P" + sc[k + 1:]
+            ops.append("splice 0 0 %s %s %s" % (bs, be, sc or "-"))
+            fresh += r + 3
+    elif kind == "dfilter":
+        w = n
+        sc = "".join(rng.choice("TF") for _ in range(n + 1))
+        if flavor.get("panic") and rng.random() < 0.4:
+            k = rng.randrange(len(sc)); sc = sc[:k] + "P" + sc[k + 1:]
+        ops.append("dfilter 0 0 %s" % sc)
+    else:
+        w = n
+        ops.append("intoiter 0 0")
+    total = rng.randint(0, w + 2)
+    clones = 0
+    for _ in range(total):
+        c = rng.random()
+        if c < 0.5 or kind == "dfilter":
+            ops.append("next 0")
+        elif c < 0.9:
+            ops.append("nextb 0")
+        else:
+            ops.append("hint 0")
+        if kind == "intoiter" and rng.random() < 0.25 and clones < 1 and flavor.get("cloneit", True):
+            ops.append("cloneit 0 1"); clones += 1; fresh += n
+            if rng.random() < 0.5:
+                ops.append(rng.choice(["next 1", "nextb 1", "asslice 1", "dropit 1"]))
+    if rng.random() < 0.3:
+        ops.append("hint 0")
+    if kind == "intoiter" and rng.random() < 0.3:
+        ops.append("asslice 0")
+    if flavor.get("forget") and rng.random() < 0.6:
+        ops.append("forget 0")
+    else:
+        ops.append("dropit 0")
+    if clones and rng.random() < 0.7:
+        ops += [rng.choice(["next 1", "nextb 1", "asslice 1"]), "dropit 1"]
+    if kind != "intoiter":
+        ops += rng.sample(["push 0", "pop 0", "insert 0 0", "remove 0 0", "clone 0 1", "shrinkfit 0", "trunc 0 1", "reserve 0 3"], rng.randint(0, 3))
+    hdr = "H %s cls=%s" % (hid, cls)
+    if flavor.get("panic") and cls in TRACKED and fresh > 0 and rng.random() < 0.7:
+        ids = sorted(set(rng.randrange(max(n, 1)) for _ in range(rng.choice([1, 1, 2]))))
+        hdr += (" dp=" if rng.random() < 0.8 else " cp=") + ",".join(map(str, ids))
+    return hdr + " :: " + " ; ".join(ops)
+
 FLAVORS = {
     "plain": {},
-    "C01": {"malformed": 0.06},
-    "C02": {"malformed": 0.04, "classes": TRACKED},
-    "C03": {"malformed": 0.04, "weights": {"shrinkfit": 3, "shrinkto": 2, "reserve": 2, "reservex": 2, "clear": 3, "splice": 1.5, "splitoff": 2}},
-    "C04": {"panic": True, "classes": TRACKED, "malformed": 0.05},
-    "C05": {"forget": True, "classes": TRACKED, "malformed": 0.03, "weights": {"drain": 2, "splice": 2, "dfilter": 2, "intoiter": 2, "iterstep": 1.5, "iterend": 2}},
-    "C06": {"start": "never", "maxops": 6, "malformed": 0.05},
-    "C07": {"malformed": 0.03, "weights": {"reserve": 3, "reservex": 3, "shrinkfit": 2, "shrinkto": 3, "spare": 3, "splitspare": 3}},
+    "C01": {"iter_share": 0.4, "malformed": 0.06},
+    "C02": {"iter_share": 0.4, "malformed": 0.04, "classes": TRACKED},
+    "C03": {"iter_share": 0.2, "malformed": 0.04, "weights": {"shrinkfit": 3, "shrinkto": 2, "reserve": 2, "reservex": 2, "clear": 3, "splice": 1.5, "splitoff": 2}},
+    "C04": {"iter_share": 0.5, "panic": True, "classes": TRACKED, "malformed": 0.05},
+    "C05": {"iter_share": 0.6, "forget": True, "classes": TRACKED, "malformed": 0.03, "weights": {"drain": 2, "splice": 2, "dfilter": 2, "intoiter": 2, "iterstep": 1.5, "iterend": 2}},
+    "C06": {"iter_share": 0.2, "start": "never", "maxops": 6, "malformed": 0.05},
+    "C07": {"iter_share": 0.15, "malformed": 0.03, "weights": {"reserve": 3, "reservex": 3, "shrinkfit": 2, "shrinkto": 3, "spare": 3, "splitspare": 3}},
     "C08": {"start": "overaligned", "malformed": 0.03, "weights": {"shrinkfit": 3, "clear": 3, "shrinkto": 2, "reserve": 2, "splitoff": 2, "drainvec": 2, "intoiter": 1.5}},
-    "C10": {"malformed": 0.03, "weights": {"drain": 3, "splice": 3, "dfilter": 3, "intoiter": 3, "iterstep": 2.5}},
+    "C10": {"iter_share": 0.6, "malformed": 0.03, "weights": {"drain": 3, "splice": 3, "dfilter": 3, "intoiter": 3, "iterstep": 2.5}},
     "C11": {"malformed": 0.5},
-    "C12": {"classes": TRACKED, "malformed": 0.03, "weights": {"clone": 4, "intoiter": 4, "iterstep": 2}},
+    "C12": {"iter_share": 0.5, "iter_kinds": ["intoiter"], "classes": TRACKED, "malformed": 0.03, "weights": {"clone": 4, "intoiter": 4, "iterstep": 2}},
     "C14": {"raw": True, "malformed": 0.03, "weights": {"rawrt": 12}},
     "C15": {"malformed": 0.02, "weights": {"cmp": 25, "clone": 3, "push": 2}},
-    "C17": {"illbehaved": True, "classes": TRACKED, "malformed": 0.03, "weights": {"splice": 4, "extend": 3, "fromiter": 3, "retain": 2, "dedupby": 2, "dfilter": 2}},
+    "C17": {"iter_share": 0.5, "illbehaved": True, "classes": TRACKED, "malformed": 0.03, "weights": {"splice": 4, "extend": 3, "fromiter": 3, "retain": 2, "dedupby": 2, "dfilter": 2}},
     "C18": {"malformed": 0.02},
 }
 
@@ -332,6 +413,10 @@ def generate(ctx, P):
     n = P.get("quick_n", 500) if ctx.tier == "quick" else P.get("thorough_n", 12000)
     fl = FLAVORS[pid]
     out = []
+    share = fl.get("iter_share", 0.0)
     for k in range(n):
-        out.append(make(rng, fl, "g%d" % k))
+        if rng.random() < share:
+            out.append(iter_scenario(rng, fl, "s%d" % k))
+        else:
+            out.append(make(rng, fl, "g%d" % k))
     return out
